@@ -188,6 +188,8 @@ type Machine struct {
 	errorOnly           map[*types.Func]int     // 0 unknown, 1 yes, 2 no
 	libLen              map[*types.Func]bool
 	inlineDepth         int
+	eventStackT         *types.Named
+	eventProc           *types.Func
 	curState            *State
 	FuncsSeen           map[string]bool
 	OpaquePreds         map[string]int
@@ -755,6 +757,7 @@ func (m *Machine) readEventTables() error {
 		})
 		if nPred >= 2 {
 			procDecl = fd
+			m.eventProc = m.scannerT.Method(i)
 		}
 	}
 	if procDecl == nil {
@@ -785,6 +788,7 @@ func (m *Machine) readEventTables() error {
 						// one taking nothing and returning an event pops
 						if gs.Recv() != nil && gs.Params().Len() == 1 && gs.Results().Len() == 0 && recvNamed(g) != m.scannerT {
 							kind = "begin"
+							m.eventStackT = recvNamed(g)
 						}
 						if gs.Recv() != nil && gs.Params().Len() == 0 && gs.Results().Len() == 1 && recvNamed(g) != m.scannerT && recvNamed(g) != evT {
 							kind = "end"
@@ -873,3 +877,16 @@ func (m *Machine) switchTrueSet(fd *ast.FuncDecl) (map[string]bool, bool) {
 	}
 	return set, true
 }
+
+// IsLibLenFunc reports whether f was classified as a pure library-length helper
+// (a Scanner method returning (length, error) that the step functions call).
+func (m *Machine) IsLibLenFunc(f *types.Func) bool { return m.libLen[f] }
+
+// IsStepStackType / IsEventStackType / IsEventProcessor expose the roles the
+// extractor resolved, for rules that discharge explicit panics against the automaton.
+func (m *Machine) IsStepStackType(n *types.Named) bool {
+	st, _ := m.stackField.Type().(*types.Named)
+	return st != nil && n == st
+}
+func (m *Machine) IsEventStackType(n *types.Named) bool { return m.eventStackT != nil && n == m.eventStackT }
+func (m *Machine) IsEventProcessor(f *types.Func) bool  { return f != nil && f == m.eventProc }
